@@ -52,6 +52,59 @@ struct Stats {
     parallel_row_groups: u64,
 }
 
+/// Replace Arrow data type names (with their parenthesised arguments) in an error / panic message
+/// by `<type>`, so that one defect that is reachable with several types keeps one signature.
+fn norm_types(msg: &str) -> String {
+    const NAMES: [&str; 31] = [
+        "FixedSizeBinary", "LargeBinary", "BinaryView", "LargeUtf8", "Utf8View", "Decimal256", "Decimal128",
+        "Decimal64", "Decimal32", "Timestamp", "Dictionary", "Duration", "Interval", "Time32", "Time64", "Date32",
+        "Date64", "Float16", "Float32", "Float64", "UInt64", "UInt32", "UInt16", "UInt8", "Int64", "Int32", "Int16",
+        "Int8", "Boolean", "Binary", "Utf8",
+    ];
+    let b = msg.as_bytes();
+    let mut out = String::with_capacity(msg.len());
+    let mut i = 0usize;
+    'outer: while i < b.len() {
+        let boundary_before = i == 0 || !(b[i - 1].is_ascii_alphanumeric() || b[i - 1] == b'_');
+        if boundary_before {
+            for n in NAMES {
+                if msg[i..].starts_with(n) {
+                    let mut j = i + n.len();
+                    if j < b.len() && (b[j].is_ascii_alphanumeric() || b[j] == b'_') {
+                        continue;
+                    }
+                    if j < b.len() && b[j] == b'(' {
+                        let mut depth = 0i32;
+                        while j < b.len() {
+                            if b[j] == b'(' {
+                                depth += 1;
+                            } else if b[j] == b')' {
+                                depth -= 1;
+                                if depth == 0 {
+                                    j += 1;
+                                    break;
+                                }
+                            }
+                            j += 1;
+                        }
+                    }
+                    out.push_str("<type>");
+                    i = j;
+                    continue 'outer;
+                }
+            }
+        }
+        let ch = msg[i..].chars().next().unwrap();
+        out.push(ch);
+        i += ch.len_utf8();
+    }
+    out
+}
+
+fn norm_panic(p: &vcore::mon::PanicInfo) -> vcore::mon::PanicInfo {
+    vcore::mon::PanicInfo { msg: norm_types(&p.msg), loc: p.loc.clone() }
+}
+
 fn mode_sig(w: &Written, concat: bool, compat: bool) -> &'static str {
     if concat {
         "cat"
@@ -165,7 +218,7 @@ fn one_case(ctx: &mut Ctx, rng: &mut Rng, cfg: &WriteCfg, concat: bool, compat: 
                     // neither rejected the configuration nor produced the file. Reported under its own
                     // signature family so that it can be triaged separately from value mismatches.
                     ctx.eval();
-                    let sig = format!("C05|write-err|{}|{}", f.stage, strip_digits(&f.msg));
+                    let sig = format!("C05|write-err|{}", strip_digits(&norm_types(&f.msg)));
                     ctx.violation(
                         &sig,
                         format!("the writer accepted the schema but {} failed on valid input: {}\ntags {:?}\n{}", f.stage, f.msg, f.tags, f.desc),
@@ -173,7 +226,12 @@ fn one_case(ctx: &mut Ctx, rng: &mut Rng, cfg: &WriteCfg, concat: bool, compat: 
                 }
                 FailKind::Panic(p) => {
                     ctx.eval();
-                    if f.tags.contains(&"cdc") && f.tags.contains(&"unordered-listview") && matches!(f.stage.as_str(), "write" | "flush" | "close") {
+                    if f.tags.contains(&"cdc")
+                        && f.tags.contains(&"unordered-listview")
+                        && f.tags.contains(&"ok-without-cdc")
+                        && matches!(f.stage.as_str(), "write" | "flush" | "close")
+                    {
+                        // (the same batches are written fine without CDC: tag "ok-without-cdc")
                         // one defect class, open-ended set of panic sites: the content-defined chunker
                         // (and ArrayLevels::slice_for_chunk) assume the leaf values of a chunk are
                         // visited in increasing order, which an out-of-order ListView breaks
@@ -182,7 +240,7 @@ fn one_case(ctx: &mut Ctx, rng: &mut Rng, cfg: &WriteCfg, concat: bool, compat: 
                             format!("panic: {} @ {}\n{}", p.msg, p.loc, f.desc),
                         );
                     } else {
-                        ctx.panic_violation(&format!("write:{}", f.stage), p, format!("tags {:?}\n{}", f.tags, f.desc));
+                        ctx.panic_violation("write", &norm_panic(p), format!("panic: {}\nstage {}\ntags {:?}\n{}", p.msg, f.stage, f.tags, f.desc));
                     }
                 }
             }
@@ -219,7 +277,7 @@ fn one_case(ctx: &mut Ctx, rng: &mut Rng, cfg: &WriteCfg, concat: bool, compat: 
                     ctx.reject();
                 } else {
                     ctx.violation(
-                        &format!("C05|cat|append_column-err|{}", strip_digits(&e)),
+                        &format!("C05|append_column-err|{}", strip_digits(&norm_types(&e))),
                         format!("re-splicing a file the writer produced failed: {e}\n{}", witness(&w)),
                     );
                 }
@@ -246,8 +304,8 @@ fn one_case(ctx: &mut Ctx, rng: &mut Rng, cfg: &WriteCfg, concat: bool, compat: 
                     ctx.count(&format!("rejected@read-{stage}: {m}"), 1);
                 } else {
                     ctx.violation(
-                        &format!("C05|{ms}|read-err|{stage}|{}", strip_digits(&msg)),
-                        format!("reading back a file the writer produced failed at {stage}: {msg}\nread {rc:?}\n{}", witness(&w)),
+                        &format!("C05|read-err|{}", strip_digits(&norm_types(&msg))),
+                        format!("reading back a file the writer produced (mode `{ms}`) failed at {stage}: {msg}\nread {rc:?}\n{}", witness(&w)),
                     );
                 }
                 break;
@@ -258,7 +316,7 @@ fn one_case(ctx: &mut Ctx, rng: &mut Rng, cfg: &WriteCfg, concat: bool, compat: 
                     ctx.reject();
                     ctx.count("rejected@read-panic", 1);
                 } else {
-                    ctx.panic_violation(&format!("{ms}|read"), &p, format!("read {rc:?}\n{}", witness(&w)));
+                    ctx.panic_violation("read", &norm_panic(&p), format!("panic: {}\nfile written in mode `{ms}`\nread {rc:?}\n{}", p.msg, witness(&w)));
                 }
                 break;
             }
@@ -267,8 +325,8 @@ fn one_case(ctx: &mut Ctx, rng: &mut Rng, cfg: &WriteCfg, concat: bool, compat: 
                 if let Err(d) = compare_schema(&w.schema, &schema, w.props.coerce_types) {
                     ok = false;
                     ctx.violation(
-                        &format!("C05|{ms}|schema|{}|{}", d.sig_path(), d.what),
-                        format!("schema read back differs at {}: {} ({})\nexpected {}\nread     {}\nread {rc:?}\n{}", d.path, d.what, d.detail, pq::schema_string(&w.expected_schema), pq::schema_string(&schema), w.desc),
+                        &format!("C05|schema|{}|{}", d.sig_path(), d.what),
+                        format!("[mode `{ms}`] schema read back differs at {}: {} ({})\nexpected {}\nread     {}\nread {rc:?}\n{}", d.path, d.what, d.detail, pq::schema_string(&w.expected_schema), pq::schema_string(&schema), w.desc),
                     );
                     break;
                 }
@@ -276,8 +334,8 @@ fn one_case(ctx: &mut Ctx, rng: &mut Rng, cfg: &WriteCfg, concat: bool, compat: 
                 if let Some((b, d)) = batches.iter().find_map(|b| compare_schema(&schema, &b.schema(), false).err().map(|d| (b, d))) {
                     ok = false;
                     ctx.violation(
-                        &format!("C05|{ms}|batch-schema|{}", d.what),
-                        format!("a batch carries fields different from the reader's schema at {}: {}\nbatch  {}\nreader {}\n{}", d.path, d.detail, pq::schema_string(&b.schema()), pq::schema_string(&schema), w.desc),
+                        &format!("C05|batch-schema|{}", d.what),
+                        format!("[mode `{ms}`] a batch carries fields different from the reader's schema at {}: {}\nbatch  {}\nreader {}\n{}", d.path, d.detail, pq::schema_string(&b.schema()), pq::schema_string(&schema), w.desc),
                     );
                     break;
                 }
@@ -286,8 +344,8 @@ fn one_case(ctx: &mut Ctx, rng: &mut Rng, cfg: &WriteCfg, concat: bool, compat: 
                     Ok(Err(d)) => {
                         ok = false;
                         ctx.violation(
-                            &format!("C05|{ms}|rows|{}|{}", d.path, d.kind),
-                            format!("{}\nread {rc:?}\n{}", d.detail, witness(&w)),
+                            &format!("C05|rows|{}|{}", d.path, d.kind),
+                            format!("[mode `{ms}`] {}\nread {rc:?}\n{}", d.detail, witness(&w)),
                         );
                         break;
                     }
@@ -296,7 +354,7 @@ fn one_case(ctx: &mut Ctx, rng: &mut Rng, cfg: &WriteCfg, concat: bool, compat: 
                         if p.msg.starts_with("model:") {
                             ctx.inconclusive(&format!("extract: {} @ {}", p.msg, p.loc));
                         } else {
-                            ctx.panic_violation(&format!("{ms}|accessors-on-read-array"), &p, format!("read {rc:?}\n{}", witness(&w)));
+                            ctx.panic_violation("accessors-on-read-array", &p, format!("file written in mode `{ms}`\nread {rc:?}\n{}", witness(&w)));
                         }
                         break;
                     }
